@@ -541,7 +541,7 @@ def run(ctx, rec):
     for h_ in bh:
         feed(h_, "bundle")
     rec.extra["exhaustive_lengths"] = {"module": L, "bundle": L + 1, "module_reduced_alphabet_len4": not ctx.quick}
-    for _ in range(2000 if ctx.quick else 12000):
+    for _ in range(2000 if ctx.quick else 40000):
         n = rng.randint(4, 8)
         on = "module" if rng.random() < 0.7 else "bundle"
         feed([rng.choice(mops if on == "module" else bops) for _ in range(n)], on)
@@ -562,12 +562,12 @@ def run(ctx, rec):
             except Exception as e:
                 rec.violation("edit-raised", f"alias {on} history {hh} raised {type(e).__name__}: {e}", case={"kind": "alias", "on": on, "history": hh})
     # exported final states
-    for _ in range(400 if ctx.quick else 1500):
+    for _ in range(400 if ctx.quick else 4000):
         n = rng.randint(2, 6)
         export_check(rec, [list(rng.choice(mops)) for _ in range(n)])
     if ctx.shard == 0:
         reject_probes(rec)
-        class_vs_procedural(rec, rng, 150 if ctx.quick else 600)
+        class_vs_procedural(rec, rng, 150 if ctx.quick else 2000)
         class_body_probes(rec)
     rec.exhaustive = ctx.nshards == 1
     _state["rec"] = None
